@@ -198,14 +198,16 @@ def excEquityLegIndexBasis : Exc :=
 /-- by-design exceptions to forwarding -/
 def designExceptions : List Exc := [excBondCouponCalendar, excBondCfets, excFloatLegIndexBasis, excEquityLegIndexBasis]
 
-/-- RECORDED DEFECT (finding C16/annuity-ignores-bd-dg): `BondAnnuity.__init__` accepts `bd_type` and `dg_type`, stores
-them, and `calculate_payments` builds its schedule with the constants FOLLOWING / BACKWARD instead -/
+/-- REPAIRED DEFECT (finding C16/annuity-ignores-bd-dg, fixed in /repo by ed33e4a): `BondAnnuity.__init__` accepts
+`bd_type` and `dg_type`, stores them, and `calculate_payments` used to build its schedule with the constants FOLLOWING /
+BACKWARD instead.  The two entries are kept as names only; they are no longer excused (`knownDefects = []`), so the
+forwarding rule now judges that call site like every other one and the defect is reported again if it returns. -/
 def defectAnnuityBd : Exc :=
   ⟨"BondAnnuity", "calculate_payments", "Schedule", "bd_type", "DEFECT: constructor parameter ignored (constant FOLLOWING used)"⟩
 def defectAnnuityDg : Exc :=
   ⟨"BondAnnuity", "calculate_payments", "Schedule", "dg_type", "DEFECT: constructor parameter ignored (constant BACKWARD used)"⟩
 
-def knownDefects : List Exc := [defectAnnuityBd, defectAnnuityDg]
+def knownDefects : List Exc := []
 
 /-- sites that build an AUXILIARY instrument (not a component of the product itself) with the callee's default
 conventions; formal "*" = every parameter of that call.  Not judged by the forwarding rule; R3 and leg consistency still
